@@ -192,6 +192,8 @@ def setup(run):
         return w
 
     def hook_follow(call, state):
+        if state is None:
+            return
         M, prob = state
         if M is None:
             return walk.skip("label view not an automaton before the call")
@@ -226,6 +228,8 @@ def setup(run):
             label_watch(call, M, "follow_word")
 
     def hook_accepts(call, state):
+        if state is None:
+            return
         M, prob = state
         if M is None:
             return walk.skip("label view not an automaton before the call")
@@ -254,6 +258,8 @@ def setup(run):
 
     def hook_prefix(which):
         def hook(call, state):
+            if state is None:
+                return
             M, prob = state
             if M is None:
                 return walk.skip("label view not an automaton before the call")
@@ -322,6 +328,8 @@ def setup(run):
 
     def hook_enum(op):
         def hook(call, state):
+            if state is None:
+                return
             M, prob = state
             if call.exc is not None:
                 return
@@ -482,6 +490,8 @@ def setup(run):
     attach.wrap_attr(run, FSA, "even_automaton", hook_multiple("even_automaton"), pre=pre_multiple)
 
     def hook_rename(call, state):
+        if state is None:
+            return
         M, prob, flat = state
         if call.exc is not None:
             return
@@ -519,6 +529,8 @@ def setup(run):
     attach.wrap_attr(run, FSA, "rename_generators", hook_rename, pre=pre_op)
 
     def hook_recurrent(call, state):
+        if state is None:
+            return
         M, prob, flat = state
         if call.exc is not None:
             return
@@ -562,6 +574,8 @@ def setup(run):
     attach.wrap_attr(run, FSA, "recurrent", hook_recurrent, pre=pre_op)
 
     def hook_rlp(call, state):
+        if state is None:
+            return
         M, prob, flat = state
         if call.exc is not None:
             return
